@@ -626,6 +626,15 @@ func (bal *Balancer) balanceBlock(blkid arvados.SizedDigest, blk *BlockState) ba
 	// class that's currently underreplicated -- in that case we
 	// won't want to trash any replicas.
 	underreplicated := false
+	for class, desired := range blk.Desired {
+		if desired > 0 && bal.mountsByClass[class] == nil {
+			// No mount offers this storage class. The
+			// block cannot be placed as desired, but it
+			// is referenced: don't treat its replicas as
+			// garbage.
+			underreplicated = true
+		}
+	}
 
 	unsafeToDelete := make(map[int64]bool, len(slots))
 	for _, class := range bal.classes {
@@ -834,8 +843,8 @@ func (bal *Balancer) balanceBlock(blkid arvados.SizedDigest, blk *BlockState) ba
 		// No slot was wanted (e.g., no writable mount), but a
 		// referenced block without any replica is lost all
 		// the same.
-		for _, class := range bal.classes {
-			if blk.Desired[class] > 0 {
+		for _, desired := range blk.Desired {
+			if desired > 0 {
 				lost = true
 				break
 			}
